@@ -165,7 +165,12 @@ where
     #[cfg(feature = "std")]
     fn chunks_vectored<'a>(&'a self, dst: &mut [IoSlice<'a>]) -> usize {
         let mut n = self.a.chunks_vectored(dst);
-        n += self.b.chunks_vectored(&mut dst[n..]);
+        // `a` may report only part of its bytes (the default implementation
+        // reports a single chunk); `b` may only follow once `a` is complete.
+        let a_reported: usize = dst[..n].iter().map(|s| s.len()).sum();
+        if a_reported == self.a.remaining() {
+            n += self.b.chunks_vectored(&mut dst[n..]);
+        }
         n
     }
 
